@@ -336,6 +336,7 @@ func runC14(cx *ctx) {
 			})
 		})
 	}
+	c14Extra(cx)
 	_ = io.EOF
 	_ = strings.TrimSpace
 	_ = armor.Header
